@@ -7,5 +7,6 @@ mkdir -p "$here/bin" "$here/evidence" "$here/replay"
 cd "$here/mc"
 cp -f /repo/go.sum go.sum
 $GO build -o "$here/bin/mc" ./cmd/mc
-$GO build -race -o "$here/bin/mc-race" ./cmd/mc   # warms the race-instrumented build cache for C09's race pass
+for d in ./cmd/mc-c*; do $GO build -o "$here/bin/$(basename "$d")" "$d"; done
+$GO build -race -o "$here/bin/mc-c09-race" ./cmd/mc-c09   # warms the race-instrumented build cache for C09's race pass
 "$here/bin/mc" -list
